@@ -52,6 +52,8 @@ class Unsupported(Exception):
 def sanitize(src: str) -> str:
     s = src.replace("self.", "")
     s = re.sub(r"\s+", "", s)
+    if re.fullmatch(r"[A-Za-z_][A-Za-z0-9_.]*[A-Za-z0-9]_+", s):
+        s += "u"   # `obs_` is not `obs`
     s = s.replace("+", "_p").replace("-", "_m").replace("*", "_x")
     s = re.sub(r"[^A-Za-z0-9_]", "_", s)
     s = re.sub(r"_+", "_", s).strip("_")
@@ -80,11 +82,22 @@ class Tr(ast.NodeVisitor):
         self.inline = inline or {}
         self.calls = calls or {}
         self.opaque = {re.sub(r"\s+", "", k): v for k, v in (opaque or {}).items()}
+        self.origins = {}
+        self.collisions = []
         self.env = None  # symbolic store of the block translator (variable -> Lean term); None for plain expressions
         self.list_mode = False
 
+    def register(self, name, text):
+        """two different source texts must not share one Lean name (`obs_` / `obs`, `self.pos` / `pos`: sanitize() drops
+        `self.` and outer underscores); a collision makes the item unavailable"""
+        canon = re.sub(r"\s+", "", text)
+        prev = self.origins.setdefault(name, canon)
+        if prev != canon:
+            self.collisions.append((name, prev, canon))
+
     def leaf(self, node):
         name = sanitize(ast.get_source_segment(self.src, node))
+        self.register(name, ast.get_source_segment(self.src, node))
         if self.env is not None and name in self.env:
             return self.env[name]
         if name in self.inline:
@@ -267,7 +280,9 @@ class BlockTr:
         return name
 
     def name_of(self, target):
-        return sanitize(ast.get_source_segment(self.src, target))
+        name = sanitize(ast.get_source_segment(self.src, target))
+        self.tr.register(name, ast.get_source_segment(self.src, target))
+        return name
 
     def cur(self, env, name):
         """current symbolic value of a variable (its entry value is a leaf)"""
@@ -495,7 +510,8 @@ def extract_block(item):
     leaf_types {leaf: T}, type (default leaf type, else α), skip [needles], havoc [needles], effects {callee: X},
     opaque {python expression: leaf}, no_return (Lean term for `ret` on a path that falls off the end),
     effect_arg {X: argument index} (output `effarg_X`), effects_absent_false (a listed effect no path reaches is `false`
-    instead of making the item unavailable), lenient (untranslatable simple statements / tests / nested loops
+    instead of making the item unavailable), merge_names (Lean names two source texts may share, reviewed by hand:
+    `self.x` and a local `x` that is a copy of it; any other collision makes the item unavailable), lenient (untranslatable simple statements / tests / nested loops
     become unknowns instead of making the item unavailable), strict (false: extra assigned variables are allowed),
     type_params / alpha_from_section (binders supplied by the template), list_mode (lists of string constants:
     literals, `[*xs, "a"]`, `xs + [...]`, `xs.append(v)`), calls {callee: lean function}. Statement forms: assignments
@@ -519,6 +535,10 @@ def extract_block(item):
         stmts = stmts[:k]
     bt = BlockTr(src, item)
     env = bt.run(stmts, {})
+    bad = sorted({c for c in bt.tr.collisions if c[0] not in item.get("merge_names", [])})
+    if bad:
+        # two distinct Python variables would become one Lean variable: the translation would not mean what the code does
+        raise Unsupported(f"{item['name']}: distinct source names share a Lean name: {bad}")
     outs = []
     for o in item["outputs"]:
         if o["var"] not in env and item.get("effects_absent_false") and o["var"].startswith(("eff_", "effseq_")):
@@ -580,6 +600,9 @@ def extract_item(item):
     tr = Tr(src, item.get("inline"), item.get("calls"), item.get("opaque"))
     tr.list_mode = bool(item.get("list_mode"))
     term = tr.tr(expr)
+    bad = sorted({c for c in tr.collisions if c[0] not in item.get("merge_names", [])})
+    if bad:
+        raise Unsupported(f"{item['name']}: distinct source names share a Lean name: {bad}")
     leaves = sorted(tr.leaves)
     if "leaves" in item:
         exp = sorted(item["leaves"])
